@@ -363,6 +363,13 @@ func c11Run(t *testing.T, c c11Case) (res c11Result) {
 					if c := status.Code(err); c != codes.Unavailable && c != codes.DeadlineExceeded {
 						fail("%s: with no session the call must report unavailability, got %v", where, err)
 					}
+					// once the empty session list has settled the call is refused at once (Unavailable): a call that just
+					// waits for its deadline - or for ever when it has none - does not report anything
+					// (only after some session-list update has been applied: before the first one the client connection has
+					// no resolver state at all and gRPC lets calls wait for it)
+					if c := status.Code(err); settled && len(fars) > 0 && c != codes.Unavailable {
+						fail("%s: no session has been registered for >=20 virtual seconds, yet the call does not fail with Unavailable but blocks until its deadline: %v", where, err)
+					}
 					res.classes["unavailable_with_no_session"] = true
 					return
 				}
